@@ -23,6 +23,7 @@ type builderState struct {
 	sa   *message.SecurityAssociation
 	prop *message.Proposal
 	last string
+	msgs []*message.IKEMessage // messages created from the container so far (they retain its payload list)
 }
 
 func bstate(e *Env) *builderState {
@@ -44,6 +45,8 @@ func actBuild(e *Env, a J) J {
 	// arguments are passed as fresh copies so that aliasing by a builder would be visible in later projections
 	oct := func(k string) []byte { return nilIfEmpty(octOf(gox(c, k))) }
 	switch fn {
+	case "Reset":
+		b.cont.Reset()
 	case "Notification":
 		b.cont.BuildNotification(uint8(gi(c, "proto")), uint16(gi(c, "ntype")), oct("spi"), oct("data"))
 	case "Certificate":
@@ -140,6 +143,11 @@ func actBuild(e *Env, a J) J {
 	}
 	o := errObs(err)
 	o["cont"] = projChain(b.cont)
+	held := []any{}
+	for _, m := range b.msgs {
+		held = append(held, projChain(m.Payloads))
+	}
+	o["held"] = held
 	return o
 }
 
@@ -158,5 +166,6 @@ func actNewMessage(e *Env, a J) J {
 	c := gj(a, "call")
 	m := message.NewMessage(u64of(gox(c, "ispi")), u64of(gox(c, "rspi")), uint8(gi(c, "xt")), gb(c, "response"), gb(c, "initiator"),
 		u32of(gox(c, "mid")), b.cont)
+	b.msgs = append(b.msgs, m)
 	return J{"msg": projMsg(m), "isresp": m.IsResponse(), "isinit": m.IsInitiator()}
 }
